@@ -353,6 +353,8 @@ func runC14(c *core.Ctx) {
 			maxFeeds = 14
 		}
 		h := hgen.Gen(c.R, hgen.Opts{MaxFeeds: maxFeeds, MaxTrips: 3, AlwaysAssigned: c.Index%4 != 0, RepeatStops: c.Index%3 == 0})
+		h.ZoneMode = (c.Index / 12) % hgen.ZoneModes
+		c.Feature(fmt.Sprintf("feeds-parsed-with-zone-mode:%d", h.ZoneMode))
 		c.Shape(h.Sig())
 		if c.Index%3 == 0 {
 			c.Feature("repeat-stops-enabled")
